@@ -89,17 +89,21 @@ Theorem ip_certificate_needs_peer_inside st now lim q blocks cn c u d :
 Proof.
   intros TL KM H. apply certgen_issued in H. destruct H as [_ [level [iat [CA _]]]].
   rewrite check_auth_any_eq in CA. unfold check_auth_any in CA.
-  cbn [auth_request on_conn r_get r_origin r_tls r_cred q_method q_origin q_tls] in CA.
-  rewrite TL in CA.
-  set (c' := with_ip_valid c (ip_valid blocks cn)) in CA.
+  cbn [auth_request r_get r_origin r_tls r_cred] in CA.
+  set (c' := with_ip_valid c (ip_valid blocks cn)).
+  assert (TL' : q_tls (on_conn q blocks cn) = Some c') by (cbn [on_conn q_tls]; rewrite TL; reflexivity).
   assert (KM' : km_signed c' = None) by exact KM.
-  destruct (if match q_method q with HGet => true | _ => false end then None
-            else match q_origin q with BadOrigin => Some (Refuse 400) | CrossOrigin => Some (Refuse 401) | _ => None end) as [x|] eqn:CS.
-  - destruct (q_method q); destruct (q_origin q); try discriminate; inversion CS; subst; discriminate.
-  - rewrite KM' in CA. destruct (ip_restricted c') eqn:IP; try discriminate.
-    apply ip_restricted_ok in IP. destruct IP as [_ [V _]]. unfold c' in V. cbn in V.
+  assert (G : ip_restricted c' = IpOk -> exists l b, blocks = Some l /\ In b l /\ in_block (n_peer cn) b = true).
+  { intro IP. apply ip_restricted_ok in IP. destruct IP as [_ [V _]]. unfold c' in V. cbn in V.
     unfold ip_valid in V. destruct blocks as [l|]; [|discriminate].
-    apply existsb_exists in V. destruct V as [b [Hb Hin]]. exists l, b. auto.
+    apply existsb_exists in V. destruct V as [b [Hb Hin]]. exists l, b. auto. }
+  destruct (csrf_cases (on_conn q blocks cn)) as [[code E]|E]; rewrite E in CA; [discriminate|].
+  unfold effective_tls in CA. rewrite TL' in CA.
+  destruct (s_name st (c_cn c')) as [|n0 nr] eqn:NM.
+  - destruct (ip_restricted c') eqn:IP; [apply G; reflexivity| |];
+      (destruct (tls_result_nameless now c') as [code2 E2]; [rewrite IP; discriminate|];
+       unfold tls_result in E2; rewrite E2 in CA; discriminate).
+  - rewrite KM' in CA. destruct (ip_restricted c') eqn:IP; try discriminate. apply G. reflexivity.
 Qed.
 
 (* a credential that proves only the password factor does not qualify unless "password" is listed *)
@@ -129,7 +133,7 @@ Theorem password_session_401 st now lim q w :
   certgen expand st now lim q = Refused 401.
 Proof.
   intros S NP TL C V L O. unfold certgen. rewrite S, check_auth_any_eq. unfold check_auth_any.
-  cbn [auth_request r_get r_origin r_tls r_cred]. unfold carried_cred. rewrite TL, C.
+  cbn [auth_request r_get r_origin r_tls r_cred]. unfold carried_cred. rewrite (effective_tls_none st q TL), C.
   assert (CS : (if match q_method q with HGet => true | _ => false end then None
                 else match q_origin q with BadOrigin => Some (Refuse 400) | CrossOrigin => Some (Refuse 401) | _ => None end) = None).
   { destruct O as [ -> | [ -> | -> ] ]; destruct (q_method q); reflexivity. }
@@ -243,7 +247,7 @@ Theorem complete_session st now lim q w :
 Proof.
   intros SV TL C V L Q T. eapply after_auth with (iat := w_iat w); eauto.
   rewrite check_auth_any_eq. unfold check_auth_any. cbn [auth_request r_get r_origin r_tls r_cred].
-  destruct SV as [_ [M [O _]]]. unfold carried_cred. rewrite (csrf_pass q M O), TL, C. unfold cookie_branch_any.
+  destruct SV as [_ [M [O _]]]. unfold carried_cred. rewrite (csrf_pass q M O), (effective_tls_none st q TL), C. unfold cookie_branch_any.
   apply token_ok_valid in V. destruct V as [V1 V2]. rewrite V1. cbn [t_exp t_level t_sub t_iat token_of]. rewrite V2. simpl.
   unfold hasb. apply N.eqb_neq in L. rewrite L. reflexivity.
 Qed.
@@ -258,21 +262,21 @@ Theorem complete_password st now q b :
 Proof.
   intros SV TL C B OK ER Q T. eapply after_auth with (iat := now); eauto.
   rewrite check_auth_any_eq. unfold check_auth_any. cbn [auth_request r_get r_origin r_tls r_cred].
-  destruct SV as [_ [M [O _]]]. unfold carried_cred. rewrite (csrf_pass q M O), TL, C, B. simpl. rewrite ER, OK. reflexivity.
+  destruct SV as [_ [M [O _]]]. unfold carried_cred. rewrite (csrf_pass q M O), (effective_tls_none st q TL), C, B. simpl. rewrite ER, OK. reflexivity.
 Qed.
 
 Theorem complete_cert st now lim q c :
   servable expand st q (s_name st (c_cn c)) ->
-  q_tls q = Some c ->
+  q_tls q = Some c -> names_somebody st c ->
   (keymaster_cert c /\ qualifies (s_cfg st) bKMX509) \/ (ip_cert_ok c /\ qualifies (s_cfg st) bIPCert) ->
   q_target q = s_name st (c_cn c) ->
   exists d, certgen expand st now lim q = Issued (c_cn c) d.
 Proof.
-  intros SV TL H T.
+  intros SV TL NS H T.
   assert (CA : exists level iat, check_auth now lim bAny (auth_request st q) = Admit (c_cn c) level iat /\
                                  qualifies (s_cfg st) level).
-  { rewrite check_auth_any_eq. unfold check_auth_any. cbn [auth_request r_get r_origin r_tls r_cred].
-    destruct SV as [_ [M [O _]]]. rewrite (csrf_pass q M O), TL.
+  { rewrite (check_auth_with_cert st now lim q c TL NS).
+    destruct SV as [_ [M [O _]]]. rewrite (csrf_pass q M O). unfold tls_result.
     destruct H as [[K Q]|[I Q]].
     - rewrite (km_signed_complete c K). destruct (ip_restricted c); eexists; eexists; (split; [reflexivity|]); auto.
       eapply qualifies_mono; [|exact Q]. intros f. apply carries_lor_l.
@@ -310,19 +314,19 @@ Proof.
   - eexists; eexists; vm_compute; reflexivity.
   - exists 1, bFederated. eapply P_session; [reflexivity| |reflexivity|reflexivity]. closed_facts.
   - intros u level P. simpl.
-    inversion P as [w C V E1 E2|b C OK ER E1 E2|c C K E1 E2|c C I E1 E2|c C K I E1 E2];
+    inversion P as [w C V E1 E2|b C OK ER E1 E2|c C NS K E1 E2|c C NS I E1 E2|c C NS K I E1 E2];
       vm_compute in C; try discriminate.
     inversion C. subst w. subst level. apply not_strict_password; reflexivity.
   - eexists; eexists; vm_compute; reflexivity.
   - exists 1, bCLI. eapply P_session; [reflexivity| |reflexivity|reflexivity]. closed_facts.
   - intros u level P. simpl.
-    inversion P as [w C V E1 E2|b C OK ER E1 E2|c C K E1 E2|c C I E1 E2|c C K I E1 E2];
+    inversion P as [w C V E1 E2|b C OK ER E1 E2|c C NS K E1 E2|c C NS I E1 E2|c C NS K I E1 E2];
       vm_compute in C; try discriminate.
     inversion C. subst w. subst level. apply not_strict_password; reflexivity.
   - eexists; eexists; vm_compute; reflexivity.
-  - exists 3, bIPCert. eapply P_ip_cert; [reflexivity| |reflexivity|reflexivity]. closed_facts.
+  - exists 3, bIPCert. eapply P_ip_cert; [reflexivity| | |reflexivity|reflexivity]; [vm_compute; discriminate|closed_facts].
   - intros u level P. simpl.
-    inversion P as [w C V E1 E2|b C OK ER E1 E2|c C K E1 E2|c C I E1 E2|c C K I E1 E2];
+    inversion P as [w C V E1 E2|b C OK ER E1 E2|c C NS K E1 E2|c C NS I E1 E2|c C NS K I E1 E2];
       vm_compute in C; try discriminate; inversion C; subst c.
     + destruct K as [_ [K _]]. exfalso. apply K. reflexivity.
     + subst level. apply not_strict_password; reflexivity.
@@ -350,35 +354,59 @@ Qed.
 Section Combined.
 Variable expand : bs -> bs -> option bs.
 
-Lemma csrf_cases (q : certreq) :
-  (exists code, (if match q_method q with HGet => true | _ => false end then None
-                 else match q_origin q with BadOrigin => Some (Refuse 400) | CrossOrigin => Some (Refuse 401) | _ => None end) = Some (Refuse code)) \/
-  (if match q_method q with HGet => true | _ => false end then None
-   else match q_origin q with BadOrigin => Some (Refuse 400) | CrossOrigin => Some (Refuse 401) | _ => None end) = None.
-Proof. destruct (q_method q); destruct (q_origin q); eauto. Qed.
-
 (* When a client certificate is presented, a certificate comes back only if the CERTIFICATE's own
    identity and level qualify: no cookie of whatever state (valid, expired, foreign) and no Basic
    header adds anything to it. *)
 Theorem certificate_decides st now lim q c u d :
-  q_tls q = Some c -> certgen expand st now lim q = Issued u d ->
-  exists level, cert_proves q u level /\ qualifies (s_cfg st) level.
+  q_tls q = Some c -> names_somebody st c -> certgen expand st now lim q = Issued u d ->
+  exists level, cert_proves st q u level /\ qualifies (s_cfg st) level.
 Proof.
-  intros TL H. apply certgen_issued in H. destruct H as [_ [level [iat [CA [SU _]]]]].
-  rewrite (check_auth_with_cert st now lim q c TL) in CA.
+  intros TL NS H. apply certgen_issued in H. destruct H as [_ [level [iat [CA [SU _]]]]].
+  rewrite (check_auth_with_cert st now lim q c TL NS) in CA.
   destruct (csrf_cases q) as [[code E]|E]; rewrite E in CA; [discriminate|].
   exists level. split; [eapply tls_result_sound; eauto|apply sufficient_iff; exact SU].
 Qed.
 
 (* ... and the answer is the same whatever cookie and Basic header accompany the certificate *)
 Theorem credentials_beside_certificate_ignored st now lim lim' q c ck b ck' b' :
-  q_tls q = Some c ->
+  q_tls q = Some c -> names_somebody st c ->
   certgen expand st now lim (with_creds q ck b) = certgen expand st now lim' (with_creds q ck' b').
 Proof.
-  intro TL. unfold certgen.
-  rewrite (check_auth_with_cert st now lim (with_creds q ck b) c TL).
-  rewrite (check_auth_with_cert st now lim' (with_creds q ck' b') c TL).
+  intros TL NS. unfold certgen.
+  rewrite (check_auth_with_cert st now lim (with_creds q ck b) c TL NS).
+  rewrite (check_auth_with_cert st now lim' (with_creds q ck' b') c TL NS).
   reflexivity.
+Qed.
+
+(* A certificate whose common name is the empty string is no identity: a certificate comes back only
+   when the address test accepts the certificate, and then exactly as if the request had been made
+   without it (the cookie / Basic header decide). *)
+Theorem nameless_certificate_no_identity st now lim q c :
+  q_tls q = Some c -> s_name st (c_cn c) = [] ->
+  (ip_restricted c = IpOk /\ certgen expand st now lim q = certgen expand st now lim (without_tls q)) \/
+  (ip_restricted c <> IpOk /\ exists code, certgen expand st now lim q = Refused code /\ 400 <= code).
+Proof.
+  intros TL NM. destruct (ip_restricted c) eqn:IP.
+  - left. split; [reflexivity|]. unfold certgen, auth_request, effective_tls. cbn [q_tls without_tls].
+    rewrite TL, NM, IP. reflexivity.
+  - right. split; [discriminate|].
+    destruct (certgen expand st now lim q) as [u d|code] eqn:E.
+    + exfalso. apply certgen_issued in E. destruct E as [_ [level [iat [CA _]]]].
+      rewrite check_auth_any_eq in CA. unfold check_auth_any in CA. cbn [auth_request r_get r_origin r_tls r_cred] in CA.
+      unfold effective_tls in CA. rewrite TL, NM, IP in CA.
+      destruct (csrf_cases q) as [[code E]|E]; rewrite E in CA; [discriminate|].
+      destruct (tls_result_nameless now c) as [code E2]; [rewrite IP; discriminate|].
+      unfold tls_result in E2. rewrite E2 in CA. discriminate.
+    + exists code. split; [reflexivity|eapply refused_is_error; eauto].
+  - right. split; [discriminate|].
+    destruct (certgen expand st now lim q) as [u d|code] eqn:E.
+    + exfalso. apply certgen_issued in E. destruct E as [_ [level [iat [CA _]]]].
+      rewrite check_auth_any_eq in CA. unfold check_auth_any in CA. cbn [auth_request r_get r_origin r_tls r_cred] in CA.
+      unfold effective_tls in CA. rewrite TL, NM, IP in CA.
+      destruct (csrf_cases q) as [[code E]|E]; rewrite E in CA; [discriminate|].
+      destruct (tls_result_nameless now c) as [code E2]; [rewrite IP; discriminate|].
+      unfold tls_result in E2. rewrite E2 in CA. discriminate.
+    + exists code. split; [reflexivity|eapply refused_is_error; eauto].
 Qed.
 
 Lemma token_ok_own_issuer issuer now w :
@@ -398,7 +426,7 @@ Theorem session_issuer_exact st now lim q w u d :
 Proof.
   intros TL C H. apply certgen_issued in H. destruct H as [_ [level [iat [CA [SU _]]]]].
   rewrite check_auth_any_eq in CA. unfold check_auth_any in CA.
-  cbn [auth_request r_get r_origin r_tls r_cred] in CA. unfold carried_cred in CA. rewrite TL, C in CA.
+  cbn [auth_request r_get r_origin r_tls r_cred] in CA. unfold carried_cred in CA. rewrite (effective_tls_none st q TL), C in CA.
   destruct (csrf_cases q) as [[code E]|E]; rewrite E in CA; [discriminate|].
   unfold cookie_branch_any in CA.
   destruct (token_ok now (token_of (issuer_of st) w)) eqn:T; simpl in CA; [|discriminate].
@@ -450,7 +478,9 @@ Proof.
       apply andb_true_iff in V. destruct V as [V U]. apply andb_true_iff in V. destruct V as [O E].
       apply negb_true_iff in E. apply N.eqb_eq in U. destruct H as [<-|[]]. eapply P_password; eauto.
     + destruct (q_tls q) as [c|] eqn:TL; [|destruct H].
-      destruct (c_cn c =? u) eqn:U; [|destruct H]. apply N.eqb_eq in U.
+      destruct ((c_cn c =? u) && negb (bs_eqb (s_name st u) [])) eqn:U; [|destruct H].
+      apply andb_true_iff in U. destruct U as [U NM]. apply N.eqb_eq in U. apply negb_true_iff, bs_eqb_neq in NM.
+      assert (NS : names_somebody st c) by (unfold names_somebody; rewrite U; exact NM).
       rewrite !in_app_iff in H. destruct H as [H|[H|H]].
       * destruct (keymaster_cert_b c) eqn:K; [|destruct H]. apply keymaster_cert_b_iff in K.
         destruct H as [<-|[]]. eapply P_km_cert; eauto.
@@ -459,14 +489,16 @@ Proof.
       * destruct (keymaster_cert_b c && ip_cert_ok_b c) eqn:KI; [|destruct H].
         apply andb_true_iff in KI. destruct KI as [K I]. apply keymaster_cert_b_iff in K. apply ip_cert_ok_b_iff in I.
         destruct H as [<-|[]]. eapply P_both; eauto.
-  - intros [w C V U L|b B O E U L|c TL K U L|c TL I U L|c TL K I U L].
+  - assert (NB : forall c, names_somebody st c -> u = c_cn c -> (c_cn c =? u) && negb (bs_eqb (s_name st u) []) = true).
+    { intros c NS ->. rewrite N.eqb_refl. simpl. apply negb_true_iff, bs_eqb_neq. exact NS. }
+    intros [w C V U L|b B O E U L|c TL NS K U L|c TL NS I U L|c TL NS K I U L].
     + left. rewrite C. apply valid_session_b_iff in V. rewrite V. subst u. rewrite N.eqb_refl. simpl. auto.
     + right. left. rewrite B, O, E. subst u. rewrite N.eqb_refl. simpl. auto.
-    + right. right. rewrite TL. subst u. rewrite N.eqb_refl. apply keymaster_cert_b_iff in K. rewrite K.
+    + right. right. rewrite TL, (NB c NS U). apply keymaster_cert_b_iff in K. rewrite K.
       rewrite !in_app_iff. left. simpl. auto.
-    + right. right. rewrite TL. subst u. rewrite N.eqb_refl. apply ip_cert_ok_b_iff in I. rewrite I.
+    + right. right. rewrite TL, (NB c NS U). apply ip_cert_ok_b_iff in I. rewrite I.
       rewrite !in_app_iff. right. left. simpl. auto.
-    + right. right. rewrite TL. subst u. rewrite N.eqb_refl. apply keymaster_cert_b_iff in K. apply ip_cert_ok_b_iff in I.
+    + right. right. rewrite TL, (NB c NS U). apply keymaster_cert_b_iff in K. apply ip_cert_ok_b_iff in I.
       rewrite K, I. rewrite !in_app_iff. right. right. simpl. auto.
 Qed.
 
